@@ -324,6 +324,27 @@ func (e editor) list(from *Selection, to *Selection, m *meta.List, new bool, str
 				continue
 			}
 		}
+		if toChild == nil && strategy != editUpdate {
+			// the item is about to be made under this key: a key that its leaves refuse must
+			// not leave an item behind
+			for i, kmeta := range m.KeyMeta() {
+				if i >= len(key) || key[i] == nil {
+					break
+				}
+				kr := FieldRequest{
+					Request: Request{
+						Selection: to,
+						Path:      &Path{Parent: to.Path, Meta: kmeta},
+						Base:      e.basePath,
+					},
+					Meta:  kmeta,
+					Write: true,
+				}
+				if _, err = to.Constraints.CheckFieldPreConstraints(&kr, &ValueHandle{Val: key[i]}); err != nil {
+					return err
+				}
+			}
+		}
 		toRequest.New = true
 		switch strategy {
 		case editUpdate:
